@@ -269,7 +269,9 @@ class Concat(Expr):
                     else frame
                 )
                 for frame, cols in zip(self._frames, columns_frame)
-                if len(cols) > 0
+                # stacking rows (axis=0): a frame without any of the selected
+                # columns still contributes its rows (all-NaN under join="outer")
+                if len(cols) > 0 or (self.axis == 0 and frame.ndim == 2)
             ]
             result = type(self)(
                 self.join,
